@@ -126,12 +126,20 @@ def check(ctx):
     ctx.stats["registered_symbols"] = nreg
     ctx.floor("R2", "registrations", nreg, 120)
     protos, defs, consts, cdefs = declared_everywhere(ctx)
+    phys_text, const_text = strip_comments(ctx.tree.read(PHYS_C)), strip_comments(ctx.tree.read(CONST_C))
     for p in sorted(protos):
-        ctx.check(p in defs, "R2", f"physics prototype {p} has a definition", (PHYS_H, 0), f"{p} is declared in naunet_physics.h and defined in naunet_physics.cpp")
+        # (the name written before a `(` somewhere in the .cpp but not recognised as a function definition: not understood, not missing)
+        if p in defs or not re.search(r"\b" + re.escape(p) + r"\s*\(", phys_text):
+            ctx.check(p in defs, "R2", f"physics prototype {p} has a definition", (PHYS_H, 0), f"{p} is declared in naunet_physics.h and defined in naunet_physics.cpp")
+        else:
+            ctx.unrec("R2", f"physics prototype {p} has a definition", (PHYS_C, 0), f"{p} occurs in naunet_physics.cpp but its definition is not recognised")
     for c in sorted(consts):
         if c == "eb_SPEC" or c.endswith("Table") or "Table" in c:
             continue
-        ctx.check(c in cdefs, "R2", f"constant {c} has a definition", (CONST_H, 0), f"extern {c} is defined in naunet_constants.cpp")
+        if c in cdefs or not re.search(r"\b" + re.escape(c) + r"\b", const_text):
+            ctx.check(c in cdefs, "R2", f"constant {c} has a definition", (CONST_H, 0), f"extern {c} is defined in naunet_constants.cpp")
+        else:
+            ctx.unrec("R2", f"constant {c} has a definition", (CONST_C, 0), f"{c} occurs in naunet_constants.cpp but its definition is not recognised")
     universal = None
     for c in REACTION_CLASSES:
         s = {x.text for x in regs[c] if not x.param}
@@ -1244,15 +1252,28 @@ def _r7(ctx, rm, pkg, regs):
     the symbol tables of all reactions are merged, so X is declared iff SOME instance registered it.  A registration that only
     some instances perform leaves X undeclared in a network made of the other instances while texts still mention it."""
     n = 0
+    from ..core import AnalysisError
     for cls in REACTION_CLASSES + GRAIN_CLASSES + ["ThermalProcess"]:
         byname = {}
         for r in rm.registry(cls):
             if r["cls"] != cls or r["loops"] or r["op"] != "register" or r["name"][0] != "const":
                 continue
             byname.setdefault(r["name"][1], []).append(r)
+        # a guard whose other arm RAISES restricts nothing: no instance exists on that path (guard clauses `if bad: raise ..`)
+        refusing = set()
+        dc, init = pkg.resolve(cls, "__init__")
+        if init is not None and dc == cls and any(r["guards"] for rs in byname.values() for r in rs):
+            try:
+                init = pkg.expanded(dc, "__init__", keep=("register", "unregister"))
+            except AnalysisError:
+                pass
+            for f in Flow(init, pkg.cls(dc).file, consts=rm.module_consts(pkg.cls(dc).file)).facts:
+                if f.kind == "raise" and f.guards:
+                    c_, p_ = f.guards[-1]
+                    refusing.add((simp(c_), not bool(p_)))
         for name, rs in byname.items():
             n += 1
-            gs = [tuple((simp(c), bool(p)) for c, p in r["guards"]) for r in rs]
+            gs = [tuple(g for g in ((simp(c), bool(p)) for c, p in r["guards"]) if g not in refusing) for r in rs]
             key = f"{cls}.__init__:register({name!r}):every instance"
             where = (rs[0]["file"], rs[0]["line"])
             if _exhaustive(gs):
@@ -1270,7 +1291,10 @@ def _r7(ctx, rm, pkg, regs):
                         ids = set(re.findall(r"[A-Za-z_]\w*", text))
                     if sym.text in ids or (sym.param and any(i.startswith(sym.base) for i in ids)):
                         users.append(f"{c2}: {label}")
-            if users:
+            if users and len(rs) > 1:
+                # several registrations of the name under conditions that are not visibly complementary: cannot tell whether some path misses it
+                ctx.unrec("R7", key, where, f"`{sym.text}` is registered on {len(rs)} paths under conditions that are not seen to cover every instance")
+            elif users:
                 ctx.bad("R7", key, where, f"`{sym.text}` is registered only when {guard}; a network whose {cls} instances never satisfy that leaves it undeclared, yet it is referenced by "
                         f"{sorted(set(users))[:4]}", expected="unconditional registration (or both arms of the condition register the name)", found=f"guard: {guard}")
             else:
@@ -1335,6 +1359,8 @@ MUTANTS += [
     {"name": "renderer-window-on-dust-temperature", "file": TLOADER, "old": 'f"Tgas<{r.temp_max}" if r.temp_max > 0', "new": 'f"Tdust<{r.temp_max}" if r.temp_max > 0', "rules": ["R11"]},
 ]
 BENIGN = [
+    {"name": "init-guard-clause-raises", "file": "naunet/reactions/uclchemreaction.py", "old": '        super().__init__(react_string=react_string)\n\n        self.register("ism_cosmic_ray_ionization_rate", ("zism", 1.3e-17, vt.constant))\n',
+     "new": '        super().__init__(react_string=react_string)\n        if self.reaction_type is None:\n            raise ValueError("reaction type not set")\n\n        self.register("ism_cosmic_ray_ionization_rate", ("zism", 1.3e-17, vt.constant))\n'},
     {"name": "thermal-process-window-parameters-unused", "edits": [
         {"file": TPROC, "old": "        rate: str,\n    ) -> None:", "new": "        rate: str,\n        temp_min: float = -1.0,\n    ) -> None:"},
         {"file": TPROC, "old": "        self.temp_min = -1.0\n", "new": "        self.temp_min = temp_min\n"}]},
